@@ -204,6 +204,8 @@ impl BufferParser for Parser {
                         '8' => {
                             if let Some(saved_caret) = &self.saved_cursor_opt {
                                 *caret = saved_caret.clone();
+                                // the screen may have scrolled or been cleared since the cursor was saved
+                                buf.terminal_state.limit_caret_pos(buf, caret);
                             }
                             Ok(CallbackAction::Update)
                         }
@@ -803,7 +805,11 @@ impl BufferParser for Parser {
                         self.save_cursor_position(caret);
                         return Ok(CallbackAction::NoUpdate);
                     }
-                    'u' => self.restore_cursor_position(caret),
+                    'u' => {
+                        self.restore_cursor_position(caret);
+                        // the screen may have scrolled or been cleared since the position was saved
+                        buf.terminal_state.limit_caret_pos(buf, caret);
+                    }
                     'd' => {
                         // CSI Pn d
                         // VPA - Line position absolute
@@ -1358,6 +1364,8 @@ impl BufferParser for Parser {
                         // there are no more moves than tab stops
                         let num = min(num, buf.terminal_state.tab_count() as i32 + 1);
                         (0..num).for_each(|_| caret.set_x_position(buf.terminal_state.next_tab_stop(caret.get_position().x)));
+                        // behind the last tab stop the cursor stays in the last column
+                        buf.terminal_state.limit_caret_pos(buf, caret);
                         return Ok(CallbackAction::Update);
                     }
                     'Z' => {
